@@ -110,6 +110,22 @@ Theorem c14_create_unencodable_cosmos :
 Proof. exact c14_create_unencodable_cosmos_lemma. Qed.
 Print Assumptions c14_create_unencodable_cosmos.
 
+(* creating an id that can be read fails without altering anything (any container, any fault stage);
+   and when the Exists pre-check itself fails - ReadItem answers an error that is not a 404 - Create
+   returns that error and nothing has been written (create_readerr: it fails closed) *)
+Theorem c14_create_unique_cosmos :
+  forall (enc_req : blob -> option code) (dec_req : tok -> code -> option blob)
+         (enc_att : attempt -> option code) (dec_att : tok -> code -> option attempt)
+         (stage : nat) (p : spln) (c : cdb) (q : spln),
+    CosmosModel.read dec_req dec_att (sp_id p) c = Some q ->
+    CosmosModel.create_stage enc_req dec_req enc_att dec_att stage p c = (c, false).
+Proof. exact c14_create_unique_cosmos_lemma. Qed.
+Theorem c14_create_precheck_error_cosmos :
+  forall (p : spln) (c : cdb), CosmosModel.create_readerr p c = (c, false).
+Proof. exact c14_create_precheck_error_cosmos_lemma. Qed.
+Print Assumptions c14_create_unique_cosmos.
+Print Assumptions c14_create_precheck_error_cosmos.
+
 (* The limit of that atomicity, stated and proved rather than hidden: the two batches are not atomic
    together. If the search batch fails (create_stage 1) although the plan could be created, Create
    returns an error while the plan is completely stored: it can be read, and it has no search entry
